@@ -1,12 +1,68 @@
 /-
   C18 — CVSS vectors score as the FIRST specifications say.
+  Property theorems only; definitions and helper lemmas live in
+  Model/Cvss.lean (the model of toolkit/types/cvss and updater/osv/cvss.go),
+  Model/CvssSpec.lean (the published tables and equations), Proofs/Cvss*.lean.
+  The model is tied to the Go code by `Gen.Cvss` (regenerated tables) and by
+  the correspondence run of `./check C18`.
 -/
-import ClairModel.Model.Cvss
+import ClairModel.Proofs.Cvss
+import ClairModel.Proofs.CvssV2
 
 namespace ClairModel.Props.C18
-open ClairModel ClairModel.Cvss ClairModel.Gen.Cvss
+open ClairModel ClairModel.Cvss ClairModel.CvssSpec ClairModel.Gen.Cvss
 
-/-- placeholder while the harness is brought up -/
-theorem rating_zero : rating 0 = 1 := by decide
+/-! ### exhaustive base spaces -/
+
+/-- v3.1, all 2592 base vectors: `V3.Score` (truncating `v31Roundup`, float
+    expression evaluated exactly) equals the base score of specification
+    section 7.1 with the Roundup of Appendix A (round-to-nearest). -/
+theorem v31_base_score_eq_spec {av ac pr ui s c i a : Nat}
+    (hav : av ∈ g3 0) (hac : ac ∈ g3 1) (hpr : pr ∈ g3 2) (hui : ui ∈ g3 3)
+    (hs : s ∈ g3 4) (hc : c ∈ g3 5) (hi : i ∈ g3 6) (ha : a ∈ g3 7) :
+    score3 (mk3 1 av ac pr ui s c i a) = base3 1 av ac pr ui s c i a :=
+  (v3_base_facts 1 (Or.inr rfl) sweep_v31 hav hac hpr hui hs hc hi ha).1
+
+/-- v3.0, all 2592 base vectors: `V3.Score` equals the v3.0 base score
+    (Roundup = smallest one-decimal number not below the argument). -/
+theorem v30_base_score_eq_spec {av ac pr ui s c i a : Nat}
+    (hav : av ∈ g3 0) (hac : ac ∈ g3 1) (hpr : pr ∈ g3 2) (hui : ui ∈ g3 3)
+    (hs : s ∈ g3 4) (hc : c ∈ g3 5) (hi : i ∈ g3 6) (ha : a ∈ g3 7) :
+    score3 (mk3 0 av ac pr ui s c i a) = base3 0 av ac pr ui s c i a :=
+  (v3_base_facts 0 (Or.inl rfl) sweep_v30 hav hac hpr hui hs hc hi ha).1
+
+/-- v2, all 729 base vectors: `V2.Score` equals the base equation of the v2
+    guide (no cap on Impact; this is what the `fix:` for AV:L/AC:L/Au:N/C:C/I:C/A:C restored). -/
+theorem v2_base_score_eq_spec {av ac au c i a : Nat}
+    (hav : av ∈ g2 0) (hac : ac ∈ g2 1) (hau : au ∈ g2 2) (hc : c ∈ g2 3) (hi : i ∈ g2 4) (ha : a ∈ g2 5) :
+    score2 (mk2 av ac au c i a) = base2 [av] [ac] [au] [c] [i] [a] :=
+  (v2_base_facts hav hac hau hc hi ha).1
+
+/-- OSV, v3.1: for every base vector, `fromCVSS3` applied to the vector the
+    library prints derives exactly the severity that is the rating of the
+    library's score (None→Negligible … Critical→Critical share their numbers). -/
+theorem osv_severity_eq_rating_v31 {av ac pr ui s c i a : Nat}
+    (hav : av ∈ g3 0) (hac : ac ∈ g3 1) (hpr : pr ∈ g3 2) (hui : ui ∈ g3 3)
+    (hs : s ∈ g3 4) (hc : c ∈ g3 5) (hi : i ∈ g3 6) (ha : a ∈ g3 7) :
+    ∃ k, score3 (mk3 1 av ac pr ui s c i a) = some k ∧
+      osv3 (print3 (mk3 1 av ac pr ui s c i a)) = some (rating k) :=
+  (v3_base_facts 1 (Or.inr rfl) sweep_v31 hav hac hpr hui hs hc hi ha).2
+
+/-- OSV, v3.0 (the OSV scorer uses the v3.1 Roundup for both minors; the
+    rating still agrees on the whole base space). -/
+theorem osv_severity_eq_rating_v30 {av ac pr ui s c i a : Nat}
+    (hav : av ∈ g3 0) (hac : ac ∈ g3 1) (hpr : pr ∈ g3 2) (hui : ui ∈ g3 3)
+    (hs : s ∈ g3 4) (hc : c ∈ g3 5) (hi : i ∈ g3 6) (ha : a ∈ g3 7) :
+    ∃ k, score3 (mk3 0 av ac pr ui s c i a) = some k ∧
+      osv3 (print3 (mk3 0 av ac pr ui s c i a)) = some (rating k) :=
+  (v3_base_facts 0 (Or.inl rfl) sweep_v30 hav hac hpr hui hs hc hi ha).2
+
+/-- OSV, v2: for every base vector `fromCVSS2` derives the band that
+    docs/concepts/severity_mapping.md documents for the library's score. -/
+theorem osv_severity_eq_band_v2 {av ac au c i a : Nat}
+    (hav : av ∈ g2 0) (hac : ac ∈ g2 1) (hau : au ∈ g2 2) (hc : c ∈ g2 3) (hi : i ∈ g2 4) (ha : a ∈ g2 5) :
+    ∃ k, score2 (mk2 av ac au c i a) = some k ∧
+      osv2 (print2 (mk2 av ac au c i a)) = inBands osvDocV2 k :=
+  (v2_base_facts hav hac hau hc hi ha).2
 
 end ClairModel.Props.C18
